@@ -1,7 +1,7 @@
 #!/usr/bin/env python3
 """seedimport.py <PROP>  — copy the deliverables of /tmp/seed/<PROP>/out into /verif/seeded/<PROP>-mN/"""
 import json, os, shutil, sys, glob
-p = sys.argv[1]; src = f"/tmp/seed/{p}/out"; V = os.path.dirname(os.path.dirname(os.path.abspath(__file__)))
+p = sys.argv[1]; base = sys.argv[2] if len(sys.argv) > 2 else "/tmp/seed"; src = f"{base}/{p}/out"; V = os.path.dirname(os.path.dirname(os.path.abspath(__file__)))
 metas = json.load(open(os.path.join(src, "meta.json")))
 for m in metas:
     mid = m["id"]; dst = os.path.join(V, "seeded", f"{p}-{mid}"); os.makedirs(dst, exist_ok=True)
